@@ -14,7 +14,7 @@ import ast
 from ..interp import Interp, Phi, Ref, Tup, vtext
 from ..nf import NF
 from ..nfdomain import NFDomain
-from ..program import AnalysisError, Program, unparse, short, walk_no_nested
+from ..program import AnalysisError, Program, unparse, short, walk_no_nested, bind_args
 from ..report import Report
 from .. import roms
 from ..weights import Axis, check_multilinear
@@ -266,38 +266,50 @@ def frames(prog: Program, rep: Report, rule: str) -> None:
 
 
 def z2s_call(prog: Program, rep: Report, rule: str) -> None:
-    """Forcing.update computes (K, A) from z_r at the particle's own cell: z2s(z_r, X - i0, Y - j0, Z)."""
+    """Forcing.update computes (K, A) from z_r at the particle's own cell: z2s(z_r, X - i0, Y - j0, Z),
+    and what it stores in self.K / self.A is that result. Evaluated abstractly, so local aliases
+    (grid = self.grid; K, A = z2s(...); self.K = K) are read like the direct spelling."""
     fi = prog.role_func("forcing", "update")
-    found = False
-    for node in walk_no_nested(fi.node):
-        if isinstance(node, ast.Assign) and isinstance(node.value, ast.Call) and unparse(node.value.func) == "z2s":
-            found = True
-            tg = unparse(node.targets[0])
-            args = [unparse(a) for a in node.value.args]
-            # evaluate abstractly
-            dom = NFDomain()
-            it = Interp(prog, dom, depth=0)
-            from ..interp import Frame
+    dom = NFDomain(scalars={"grid.i0", "grid.j0"})
+    calls = []
 
-            fr = Frame(fi, {}, "forcing")
-            fr.env.update(X=NF.atom("X"), Y=NF.atom("Y"), Z=NF.atom("Z"))
-            for n2 in fi.node.body:
-                if isinstance(n2, ast.Assign) and len(n2.targets) == 1 and isinstance(n2.targets[0], ast.Name) and n2.targets[0].id in ("X", "Y", "Z"):
-                    src = unparse(n2.value)
-                    fr.env[n2.targets[0].id] = NF.atom(src.split(".")[-1])
-            vals = [it.eval(a, fr) for a in node.value.args]
-            i0, j0 = NF.atom("grid.i0"), NF.atom("grid.j0")
-            ok = (
-                len(vals) == 4
-                and vtext(vals[0]) == "grid.z_r"
-                and it.num(vals[1]) == NF.atom("X") - i0
-                and it.num(vals[2]) == NF.atom("Y") - j0
-                and it.num(vals[3]) == NF.atom("Z")
-                and tg in ("(self.K, self.A)", "self.K, self.A")
-            )
-            rep.check(rule, fi.qual, short(node), ok, what_bad=f"level lookup must use the rho-level depths at (X - i0, Y - j0, Z) and store (K, A); got args {[vtext(v) for v in vals]} -> {tg}", what_ok="z2s(z_r, X - i0, Y - j0, Z)", loc=fi.loc(node))
-    if not found:
-        raise AnalysisError("Forcing.update: call to z2s not found")
+    def hook(node, fr, it):
+        fn = unparse(node.func)
+        if fn == "z2s":
+            zf = it.prog.func("ROMS.z2s")
+            b = bind_args(zf, node)
+            vals = [it.eval(b[p], fr) for p in zf.params[:4]]
+            calls.append((node, vals))
+            return Tup([NF.atom(f"z2s#{len(calls)}.K"), NF.atom(f"z2s#{len(calls)}.A")])
+        if isinstance(node.func, ast.Attribute) and node.func.attr in ("_read_velocity", "_read_field", "force_particles", "index"):
+            return Ref(f"call:{fn}")
+        return NotImplemented
+
+    it = Interp(prog, dom, depth=0, call_hook=hook)
+    for k in ("X", "Y", "Z"):
+        it.objenv[f"state.{k}"] = NF.atom(k)
+    it.objenv["grid.i0"] = NF.atom("grid.i0")
+    it.objenv["grid.j0"] = NF.atom("grid.j0")
+    try:
+        it.run(fi, {}, "forcing")
+    except Exception as e:  # noqa: BLE001
+        rep.add(rule, fi.qual, "level lookup z2s(z_r, X - i0, Y - j0, Z) stored in (K, A)", None, f"Forcing.update could not be evaluated: {type(e).__name__}: {e}"[:200], fi.loc())
+        return
+    if not calls:
+        rep.bad(rule, fi.qual, "level lookup z2s(z_r, X - i0, Y - j0, Z) stored in (K, A)", "Forcing.update does not call z2s", fi.loc())
+        return
+    i0, j0 = NF.atom("grid.i0"), NF.atom("grid.j0")
+    for n, (node, vals) in enumerate(calls, 1):
+        ok = (
+            len(vals) == 4
+            and vtext(vals[0]) in ("grid.z_r", "forcing.grid.z_r")
+            and it.num(vals[1]) == NF.atom("X") - i0
+            and it.num(vals[2]) == NF.atom("Y") - j0
+            and it.num(vals[3]) == NF.atom("Z")
+        )
+        K, A = it.objenv.get("forcing.K"), it.objenv.get("forcing.A")
+        stored = isinstance(K, NF) and isinstance(A, NF) and K == NF.atom(f"z2s#{n}.K") and A == NF.atom(f"z2s#{n}.A")
+        rep.check(rule, fi.qual, "level lookup z2s(z_r, X - i0, Y - j0, Z) stored in (K, A)", ok and stored, what_bad=f"level lookup must use the rho-level depths at (X - i0, Y - j0, Z) and store (K, A); got args {[vtext(v) for v in vals]}, self.K = {vtext(K)}, self.A = {vtext(A)}", what_ok="z2s(z_r, X - i0, Y - j0, Z)", loc=fi.loc(node))
     z2s = prog.func("ROMS.z2s")
     dom = NFDomain()
     captured = {}
@@ -322,6 +334,7 @@ def z2s_call(prog: Program, rep: Report, rule: str) -> None:
             and it.num(byname.get("z_rho")) == NF.atom("z_rho")
         )
     rep.check(rule, z2s.qual, "z2s -> z2s_kernel(I, J, Z, z_rho)", ok, what_bad=f"kernel must receive the rounded cell indices (I from X, J from Y), the depth and the level depths; got {[vtext(v) for v in a] if a else None}", what_ok="I = round(X), J = round(Y)", loc=z2s.loc())
+
 
 
 def _scaled(conds) -> bool:
